@@ -184,7 +184,7 @@ class Open(object):
 
                     # (9) Long-Lived Graceful Restart (LLGR) Capability
                     elif capability.capa_code == capability.LLGR:
-                        self.capa_dict['LLGR'] = []
+                        self.capa_dict.setdefault('LLGR', [])
                         while len(capability.capa_value) >= 7:
                             afi, safi, flag = struct.unpack('!HBB', capability.capa_value[:4])
                             time = struct.unpack('!I', b'\x00' + capability.capa_value[4:7])[0]
@@ -196,7 +196,7 @@ class Open(object):
 
                     # (10) Extended Next Hop Encoding Capability
                     elif capability.capa_code == capability.EXTENDED_NEXT_HOP:
-                        self.capa_dict['ext_nexthop'] = []
+                        self.capa_dict.setdefault('ext_nexthop', [])
                         while len(capability.capa_value) > 0:
                             afi, safi, nexthop = struct.unpack('!HHH', capability.capa_value[:6])
                             capability.capa_value = capability.capa_value[6:]
